@@ -7,6 +7,11 @@ ROOT = os.path.dirname(os.path.dirname(os.path.abspath(__file__)))
 
 # id -> (level category, technique, level text, level note, design section)
 CHECKS = {
+ "C20": ("exploration",
+         "differential monitor: built CLI binary vs library on byte-identical copies, plus ground truth for honest/tampered chains; every invocation logged",
+         "Honest chains are produced only through `in-toto run|record|sign` under sampled option sets, link names are checked, and `verify` is run on the honest chain and after 11 single tamperings; each exit status is compared with library verification of a byte-identical copy and with the construction's ground truth; `sign --verify`, `key id` and `match-products` are compared with the library's answers.",
+         "Trusted: the harness' copy step (byte-identical directories). Open known finding F6-cli (--use-dsse with -c).",
+         "C20"),
  "C16": ("exploration",
          "Go race detector over a repeated mixed concurrent workload (report blocks counted from its log files, attributed by in_toto frames) + concurrent-vs-sequential result equality + interleaving census from hook events",
          "Fresh worker processes run 2-32 goroutines (GOMAXPROCS 2/4/16) that issue mixed independent library calls on their own trees, keys and metadata, starting cold; half of the processes are -race builds whose hook handler only yields, the other half log hook events (interleaving census) - in all of them every concurrent result is compared with the result of the same call made sequentially on an identical copy of the data.",
